@@ -185,6 +185,19 @@ def work(item):
             problems.append(f"factory invoked although the call was rejected/graph-only: {counts()}")
             res["status"] = "discipline-violation"
             res["problems"] = problems
+            return res
+        if res["status"] in ("unmodelled", "unsupported"):
+            return res
+        # a call is only well-formed or not: the same call with the factories' tensors as ordinary arguments must be
+        # rejected as well ("the result equals the result of passing the factory's return value")
+        try:
+            kw_t = {k: v for k, v in kw.items() if k != "backend"}
+            op(case["desc"], *[S.wrap(S.plain(a).copy()) for a in arrs], **kw_t)
+        except Exception:  # noqa: BLE001
+            return res
+        res["status"] = "violation?"
+        res["problems"] = [f"the call with factories is rejected ({res['error'][:160]}) although the same call with the factories' tensors computes"]
+        res["model_inputs"] = [np.zeros(a.shape, dtype=object) for a in arrs]
         return res
     if any(counts()):
         problems.append(f"factory invoked during compilation / graph=True: {counts()}")
